@@ -213,7 +213,13 @@ EvalRule(r) ==
       muIsOne == r.mu = r.tau \/ (hasNat /\ r.mu = r.nat)
   IN IF Prop = "SELF"   \* machinery self-check (MC_Eval of the plan): the scheduled evaluator against the naive one, on anthem's own output
      THEN <<Out(r, "SELF.scheduled_vs_naive", HTEquiv(gt, Ground0(r.tau, EmptyEnv), <<>>), "")>>
-     ELSE IF Prop = "C01" THEN <<Out(r, "C01.tau_vs_semantics", HTEquiv(gt, gr, <<>>), "")>>
+     ELSE IF Prop = "C01" THEN <<Out(r, "C01.tau_vs_semantics", HTEquiv(gt, gr, <<>>), "")>> \o
+          \* texts printed by the reference grammar (Syntax.tla) carry the tree they mean: the parser must have returned it
+          (IF "exp" \in DOMAIN r
+           THEN <<Out(r, "C01.text_parses_to_reference_tree",
+                      IF r.rule.head.k = "basic" /\ Len(r.rule.head.a.args) = 1 /\ r.rule.head.a.args[1] = r.exp THEN OkT
+                      ELSE BadT([note |-> "the parser groups the head term differently from the mini-gringo grammar", reference |-> r.exp]), "")>>
+           ELSE <<>>)
      ELSE <<Out(r, "C08.mu_vs_tau", HTEquiv(gm, gt, <<>>), ""),
             Out(r, "C08.mu_is_natural_or_tau_star", IF muIsOne THEN OkT ELSE BadT([note |-> "mu returned neither the natural translation nor tau*"]), "")>>
           \o (IF FullHT THEN <<Out(r, "C08.mu_vs_semantics", HTEquiv(gm, gr, <<>>), "")>> ELSE <<>>)
@@ -268,6 +274,12 @@ GammaEnum(gF, gG, preds, extra) ==
               ELSE <<>>,
       groups |-> 1, ident |-> 0, atoms |-> nb.n]
 EvalGamma(r) ==
+  IF Prop = "C02"     \* specifications, user guides and outlines are TEXT: the reference grammar fixes the tree a text means
+  THEN IF "exp" \in DOMAIN r
+       THEN <<Out(r, "C02.text_parses_to_reference_tree",
+                  IF r.f = r.exp THEN OkT ELSE BadT([note |-> "the parser groups the formula differently from the sigma_0 grammar", reference |-> r.exp]), "")>>
+       ELSE <<Skip(r, "C02.text_parses_to_reference_tree", "no reference tree")>>
+  ELSE
   LET keys == FreeKeys(<<r.f, r.g>>)
       tally == OverEnvs(keys, LAMBDA e : GammaEnum(Ground(r.f, e), Ground(r.g, e), r.preds, e))
       names == {<<"h" \o r.preds[i].p, r.preds[i].n>> : i \in DOMAIN r.preds} \cup {<<"t" \o r.preds[i].p, r.preds[i].n>> : i \in DOMAIN r.preds}
